@@ -35,7 +35,10 @@ def replay(path):
         import consumer
         import abstract_common as AC
         C = consumer.Consumer(vc.scratch(PROP + 'r'))
-        if p.get('kind') == 'enum-literals':
+        if p.get('kind') == 'trait-lists':
+            import native
+            ok, desc, _ = AC.confirm_trait_lists(native.ReplayTool(vc.scratch(PROP + 't')), p['model'])
+        elif p.get('kind') == 'enum-literals':
             ok, desc, _ = AC.confirm_enum_literals(C, p['model'])
         else:
             ok, desc, _ = AC.confirm(C, p['model'], other_variant=p['model'].get('fragments_other_variant', False))
